@@ -200,3 +200,15 @@ func init() {
 		return tuple{sint(t), iface{}}
 	})
 }
+
+func init() {
+	intrinsics["internal/bytealg.LastIndexByteString"] = func(fr *frame, a []value) value {
+		return intrinsics["strings.LastIndexByte"](fr, a)
+	}
+	intrinsics["internal/bytealg.IndexByteString"] = func(fr *frame, a []value) value {
+		return intrinsics["strings.IndexByte"](fr, a)
+	}
+	intrinsics["internal/bytealg.CountString"] = func(fr *frame, a []value) value {
+		return intrinsics["strings.Count"](fr, []value{a[0], mkStr([]value{a[1]})})
+	}
+}
